@@ -53,35 +53,76 @@ func runMoq(job JobCfg, formatter string) (res RunOut) {
 	return RunOut{Out: buf.String()}
 }
 
-func doJob(job JobCfg, fmts []string) Result {
+func doJob(job JobCfg, fmts []string, facts, oracle bool) Result {
 	res := Result{ID: job.ID, Runs: map[string]RunOut{}, Checks: map[string]string{}}
-	src, err := loadSrc(job.Dir)
-	if err != nil {
-		res.LoadErr = err.Error()
-	} else {
-		res.Case = caseSexp(job, src)
+	if facts {
+		src, err := loadSrc(job.Dir)
+		if err != nil {
+			res.LoadErr = err.Error()
+		} else {
+			res.Case = caseSexp(job, src)
+		}
 	}
 	for _, f := range fmts {
 		res.Runs[f] = runMoq(job, f)
+	}
+	if oracle {
+		runOracles(job, &res)
 	}
 	return res
 }
 
 func workerMain() {
+	// moq's legitimate recursion is shallow; make runaway recursion die quickly
+	debug.SetMaxStack(64 << 20)
 	in := bufio.NewReaderSize(os.Stdin, 1<<20)
 	out := bufio.NewWriter(os.Stdout)
 	enc := json.NewEncoder(out)
 	dec := json.NewDecoder(in)
 	for {
 		var req struct {
-			Job  JobCfg   `json:"job"`
-			Fmts []string `json:"fmts"`
+			Job   JobCfg   `json:"job"`
+			Fmts  []string `json:"fmts"`
+			Facts bool     `json:"facts"`
+			Oracle bool    `json:"oracle"`
 		}
 		if err := dec.Decode(&req); err != nil {
 			return
 		}
-		res := doJob(req.Job, req.Fmts)
+		res := doJob(req.Job, req.Fmts, req.Facts, req.Oracle)
 		enc.Encode(res)
 		out.Flush()
+	}
+}
+
+// runOracles evaluates the Go-side property oracles on the real outputs of this job.
+func runOracles(job JobCfg, res *Result) {
+	defer func() {
+		if r := recover(); r != nil {
+			res.Checks["oracle-panic"] = fmt.Sprintf("%v\n%s", r, debug.Stack())
+		}
+	}()
+	def, ok := res.Runs[""]
+	if !ok || def.Err != "" || def.Panic != "" {
+		return
+	}
+	c, diag := typeCheck(job, def.Out, "")
+	if diag != "" {
+		res.Checks["C01"] = diag
+	}
+	if c != nil && c.pkg != nil && len(c.errs) == 0 {
+		for k, v := range checkImplements(job, c) {
+			res.Checks[k] = v
+		}
+		si := loadFull(job.Dir)
+		for k, v := range checkImports(job, c, si.pkgPath) {
+			res.Checks[k] = v
+		}
+	}
+	if noop, ok := res.Runs["noop"]; ok && noop.Err == "" && noop.Panic == "" {
+		gi, have := res.Runs["goimports"]
+		if d := checkFormat(noop.Out, def.Out, gi.Out, have && gi.Err == "" && gi.Panic == ""); d != "" {
+			res.Checks["C16"] = d
+		}
 	}
 }
